@@ -214,6 +214,9 @@ func (l *List[K, V]) spec_insert(e, at *Entry[K, V]) {
 		return imp(x != e, sp_ord(l, x, l.listType) == old(sp_ord(l, x, l.listType)))
 	}))
 	ensures("after_at", sp_nx(at, l.listType) == e && sp_pv(e, l.listType) == at && sp_nx(e, l.listType) == old(sp_nx(at, l.listType)))
+	ensures("linked", all(func(x *Entry[K, V]) bool {
+		return imp(sp_in(l, x, l.listType), sp_pv(x, l.listType) != nil && sp_nx(x, l.listType) != nil)
+	}))
 	ensures("ring", sp_ring(l))
 	ensures("acct", imp(old(op_acct(l)), op_acct(l)))
 	ensures("flags", imp(old(op_flags(l)) && !old(sp_isRoot(e.flag.Flags)) && (l.listType == WHEEL_LIST || old(e.flag.Flags&(2|4|64) == 0)), op_flags(l)))
@@ -245,6 +248,9 @@ func (l *List[K, V]) spec_remove(e *Entry[K, V]) {
 	ensures("member", !sp_in(l, e, l.listType) && all(func(x *Entry[K, V]) bool { return imp(x != e, sp_in(l, x, l.listType) == old(sp_in(l, x, l.listType))) }))
 	ensures("frame_labels", all(func(x *Entry[K, V]) bool { return sp_ord(l, x, l.listType) == old(sp_ord(l, x, l.listType)) }))
 	ensures("unlinked", sp_nx(e, l.listType) == nil && sp_pv(e, l.listType) == nil)
+	ensures("linked", all(func(x *Entry[K, V]) bool {
+		return imp(sp_in(l, x, l.listType), sp_pv(x, l.listType) != nil && sp_nx(x, l.listType) != nil)
+	}))
 	ensures("ring", sp_ring(l))
 	ensures("acct", imp(old(op_acct(l)), op_acct(l)))
 	ensures("flags", imp(old(op_flags(l)), op_flags(l)))
@@ -279,6 +285,9 @@ func (l *List[K, V]) spec_move(e, at *Entry[K, V]) {
 		return imp(x != e, sp_ord(l, x, l.listType) == old(sp_ord(l, x, l.listType)))
 	}))
 	ensures("after_at", imp(e != at, sp_nx(at, l.listType) == e && sp_pv(e, l.listType) == at))
+	ensures("linked", all(func(x *Entry[K, V]) bool {
+		return imp(sp_in(l, x, l.listType), sp_pv(x, l.listType) != nil && sp_nx(x, l.listType) != nil)
+	}))
 	ensures("ring", sp_ring(l))
 	ensures("acct", imp(old(op_acct(l)), op_acct(l)))
 	ensures("flags", imp(old(op_flags(l)), op_flags(l)))
@@ -303,6 +312,7 @@ func (l *List[K, V]) spec_Front() (r *Entry[K, V]) {
 	})))
 	ensures("nonempty", imp(op_acct(l) && l.len != 0, r != nil))
 	ensures("count_pos", imp(op_acct(l), l.count >= 0 && imp(r != nil, l.count >= 1)))
+	ensures("not_root", imp(op_flags(l) && r != nil, !sp_isRoot(r.flag.Flags)))
 	return
 }
 
@@ -316,6 +326,7 @@ func (l *List[K, V]) spec_Back() (r *Entry[K, V]) {
 	})))
 	ensures("nonempty", imp(op_acct(l) && l.len != 0, r != nil))
 	ensures("count_pos", imp(op_acct(l), l.count >= 0 && imp(r != nil, l.count >= 1)))
+	ensures("not_root", imp(op_flags(l) && r != nil, !sp_isRoot(r.flag.Flags)))
 	return
 }
 
@@ -342,6 +353,9 @@ func (l *List[K, V]) spec_PopTail() (r *Entry[K, V]) {
 	ensures("member", imp(r != nil, !sp_in(l, r, l.listType)) && all(func(x *Entry[K, V]) bool { return imp(x != r, sp_in(l, x, l.listType) == old(sp_in(l, x, l.listType))) }))
 	ensures("frame_labels", all(func(x *Entry[K, V]) bool { return sp_ord(l, x, l.listType) == old(sp_ord(l, x, l.listType)) }))
 	ensures("unlinked", imp(r != nil, sp_nx(r, l.listType) == nil && sp_pv(r, l.listType) == nil))
+	ensures("linked", all(func(x *Entry[K, V]) bool {
+		return imp(sp_in(l, x, l.listType), sp_pv(x, l.listType) != nil && sp_nx(x, l.listType) != nil)
+	}))
 	ensures("ring", sp_ring(l))
 	ensures("acct", imp(old(op_acct(l)), op_acct(l)))
 	ensures("flags", imp(old(op_flags(l)), op_flags(l)))
@@ -376,8 +390,18 @@ func spec_NewList[K comparable, V any](size uint, listType uint8) (l *List[K, V]
 // the policy-list predecessor, nil at the sentinel
 func (e *Entry[K, V]) spec_PrevPolicy() (r *Entry[K, V]) {
 	flag("holds_policy")
+	reveal("op_ring", "op_flags")
 	requires("linked", e.meta.prev != nil)
 	ensures("def", r == ifelse(sp_isRoot(e.meta.prev.flag.Flags), nil, e.meta.prev))
+	// in whichever policy list e lies, the result is the greatest member below e (nil if there is none)
+	ensures("greatest_below", all(func(l *List[K, V]) bool {
+		return imp(sp_listInv(l) && gh_po_in(l, e),
+			imp(r != nil, gh_po_in(l, r) && gh_po_ord(l, r) < gh_po_ord(l, e)) &&
+				all(func(y *Entry[K, V]) bool {
+					return imp(gh_po_in(l, y) && gh_po_ord(l, y) < gh_po_ord(l, e), r != nil && gh_po_ord(l, y) <= gh_po_ord(l, r)) &&
+						imp(gh_po_in(l, y) && y != e, gh_po_ord(l, y) != gh_po_ord(l, e))
+				}))
+	}))
 	return
 }
 
